@@ -693,6 +693,29 @@ pub fn fir_many_then_readd_space() -> CfgSpace {
     })
 }
 
+/// FIR: the number of add_ssrc calls against the number of distinct SSRCs around the largest entry count a packet
+/// can carry (32 766): the limit is on entries, so a full list whose SSRCs are refreshed, or very many calls over a
+/// few SSRCs, must still be accepted, and one distinct SSRC too many refused however it is reached.
+pub fn fir_calls_vs_entries_space() -> CfgSpace {
+    CfgSpace::new("fir-calls-versus-entries-at-the-limit", 4 * 3 + 2, move |idx| {
+        let adds: Vec<(u32, u8)> = if idx >= 12 {
+            // 40 000 / 70 000 calls over 16 SSRCs
+            let calls = if idx == 12 { 40_000u32 } else { 70_000 };
+            (0..calls).map(|i| (0x0200_0000 + (i % 16) * 0x0101, (i % 256) as u8)).collect()
+        } else {
+            let distinct = [32_765u32, 32_766, 32_766, 32_767][(idx % 4) as usize];
+            let again = [1u32, 2, 300][(idx / 4) as usize] + if idx % 4 == 2 { 1000 } else { 0 };
+            let mut a: Vec<(u32, u8)> = (0..distinct).map(|i| ((i << 16) ^ i.wrapping_mul(0x0001_0003), (i % 251) as u8)).collect();
+            for j in 0..again {
+                let i = (j * 7919) % distinct;
+                a.push(((i << 16) ^ i.wrapping_mul(0x0001_0003), 0xEE));
+            }
+            a
+        };
+        Pkt::Fb { kind: Kind::Payload, sender: 1, media: 2, fci: Fci::Fir(adds), pad: 0 }
+    })
+}
+
 /// NACK: one dense run of every length 1..=320 (where a burst fast path or a 17-wide packing loop changes gear),
 /// from three starting points
 pub fn nack_dense_run_space() -> CfgSpace {
